@@ -412,14 +412,32 @@ class SolverShape:
     def convergence_node(self) -> Tuple[Node, Tuple[str, str, ast.AST, ast.AST, bool]]:
         cands = []
         unknown = []
+        reads = {}
         for n in self.tests():
             if not self.in_loop(n):
                 continue
             test_ = self.read_helpers(n.ast)
+            if 'tol' not in {x.id for x in ast.walk(test_) if isinstance(x, ast.Name)} and any(isinstance(x, ast.Name) and x.id in self.lf.locals for x in ast.walk(test_)):
+                # a flag computed just before (a helper read in place): read the locals through, comprehensions included
+                import copy as _copy
+                from fsa.summ import _subst
+                cur_ = test_
+                for _ in range(3):
+                    mp = {}
+                    for x in ast.walk(cur_):
+                        if isinstance(x, ast.Name) and isinstance(x.ctx, ast.Load) and x.id in self.lf.locals and x.id not in mp and x.id.endswith(('__test', '__result')):
+                            vals = self.lf.values_reaching(n.id, x.id)
+                            if len(vals) == 1 and vals[0][0] != PARAM and vals[0][1] is not None:
+                                mp[x.id] = vals[0][1]
+                    if not mp:
+                        break
+                    cur_ = self.read_helpers(_subst(cur_, mp))
+                test_ = cur_
             if 'tol' not in {x.id for x in ast.walk(test_) if isinstance(x, ast.Name)}:
                 continue
             try:
                 test_ = _demorgan_quantifiers(test_)
+                reads[n.id] = test_
                 r = convergence_test(test_)
                 lab = 'T'
                 if r[0] != 'all':
@@ -437,6 +455,7 @@ class SolverShape:
                 unknown.append((n, str(e)))
         if len(cands) == 1 and not unknown:
             self.conv_label = cands[0][2]
+            self.conv_test_read = reads.get(cands[0][0].id)
             return cands[0][0], cands[0][1]
         if unknown:
             raise Unknown(f'{self.q}: convergence test not in the idiom table at L{unknown[0][0].lineno}: {unknown[0][1]}')
